@@ -1,6 +1,6 @@
 /-
   C05 — candidate clusters group protoclusters by the documented kinds.
-  Property theorems only; helper lemmas in ASV/Proofs/{MergeSets,Candidates,Coverage,Members,SpecBridge,NoDup,Passes,Total,HybridWindow,PermInvariant}.lean.
+  Property theorems only; helper lemmas in ASV/Proofs/{MergeSets,Candidates,Coverage,Members,SpecBridge,NoDup,Passes,Total,HybridWindow,PermInvariant,RingFacts,RingInterleaved}.lean.
 
   Model: ASV/Model/Candidates.lean (formation.py after the repairs D16, D19, D501–D507).
   `formation ps wrap` is `create_candidates_from_protoclusters(protoclusters, circular_wrap_point)`;
@@ -8,7 +8,7 @@
   only hypothesis on the input is `ps.Nodup` (no protocluster object supplied twice), and only where
   counting is involved.  Every theorem holds for all inputs, linear and circular, of any size.
 -/
-import ASV.Proofs.PermInvariant
+import ASV.Proofs.RingInterleaved
 namespace ASV.C05
 open ASV ASV.CC ASV.CC.Spec
 
@@ -200,7 +200,7 @@ theorem interleaved_pairs_complete (clusters : List Proto) (cands : List Cand) (
   exact (mergeSets_linked G a b).2 (linked_of_cover h1 hl)
 
 /-- Interleaved on a linear record: exactly the chain classes of "cores overlap" -/
-theorem interleaved_groups_are_classes_partial (clusters : List Proto) (cands : List Cand)
+theorem interleaved_groups_are_classes_linear (clusters : List Proto) (cands : List Cand)
     (cc : List CandC) (ig : List (List Proto)) (un : List Proto) (hn : clusters.Nodup)
     (hne : ∀ p, p ∈ clusters → p.core.PartsNonEmpty)
     (hcc : withCores none cands = .ok cc) (h : findInterleaved clusters cands none = .ok (ig, un)) :
@@ -208,16 +208,26 @@ theorem interleaved_groups_are_classes_partial (clusters : List Proto) (cands : 
   obtain ⟨G, hG, h1, h2⟩ := findInterleaved_groups h hcc hn hne
   intro a b
   rw [hG, mergeSets_linked]
-  exact ⟨linked_of_cover (h2 (withCores_none_simple hcc)), linked_of_cover h1⟩
+  refine ⟨linked_of_conn ?_, linked_of_cover h1⟩
+  intro g hg x y hx hy
+  rcases h2 g hg with ⟨g', hg', hsub⟩ | hcross
+  · exact Linked.base hg' (hsub x hx) (hsub y hy)
+  · exact (crossGroup_none (withCores_none_simple hcc) hcross).elim
 
-/-- Full statement for circular records: soundness of the origin-crossing step (`core_group`) needs
-    "overlapping the connected span of origin-spanning cores ⇒ overlapping one of them", i.e.
-    `connect_locations` on a ring; the reference comparison of the correspondence carries it. -/
-def InterleavedGroupsAreClasses : Prop :=
-  ∀ (clusters : List Proto) (cands : List Cand) (wrap : Option Int) (cc : List CandC) (ig : List (List Proto))
-    (un : List Proto), clusters.Nodup → (∀ p, p ∈ clusters → p.core.PartsNonEmpty) →
-    withCores wrap cands = .ok cc → findInterleaved clusters cands wrap = .ok (ig, un) →
-    ∀ a b, (∃ r, r ∈ ig ∧ a ∈ r ∧ b ∈ r) ↔ Linked (overlapGroups (interleaveUnits clusters cc)) a b
+/-- Interleaved on a circular record of length `L`: also exactly those chain classes.  The group
+    the origin-crossing step adds (`core_group`: members of candidates whose combined core spans the
+    origin, and protoclusters whose core overlaps the connected span of those cores) is chain-connected:
+    by the C04 closed form of `connect_locations` on a ring, the connected span of origin-spanning
+    spans is the union of their bases, so a protocluster overlapping it overlaps one of the candidates,
+    and any two origin-spanning cores overlap each other.  Hypotheses: the candidates have members
+    whose cores are locations of the record (`RingIn`: parts non-empty, inside `[0, L]`). -/
+theorem interleaved_groups_are_classes_ring (L : Int) (hL : 0 < L) (clusters : List Proto) (cands : List Cand)
+    (cc : List CandC) (ig : List (List Proto)) (un : List Proto) (hn : clusters.Nodup)
+    (hne : ∀ p, p ∈ clusters → p.core.PartsNonEmpty)
+    (hcv : ∀ c, c ∈ cands → c.members ≠ [] ∧ ∀ m, m ∈ c.members → RingIn L m.core)
+    (hcc : withCores (some L) cands = .ok cc) (h : findInterleaved clusters cands (some L) = .ok (ig, un)) :
+    ∀ a b, (∃ r, r ∈ ig ∧ a ∈ r ∧ b ∈ r) ↔ Linked (overlapGroups (interleaveUnits clusters cc)) a b :=
+  findInterleaved_classes_ring hL h hcc hn hne hcv
 
 /-- Neighbouring (any record, unconditional after fixes D501/D502): two protoclusters are in one
     neighbouring group iff a chain of units (candidates so far, remaining protoclusters) with
